@@ -404,8 +404,8 @@ def check_C08(chk):
     for kind in ["empty", "sync", "async"]:
         for iface in ["sync", "async"]:
             c = dict(HLen=2, PLen=3, Kind=kind, Iface=iface, Bufs={0, 1, 4} if q else {0, 1, 2, 4},
-                     Chunks={1, 3} if q else {1, 2, 3}, MaxPend=1 if q else 2, MaxIntr=1, MaxReads=9,
-                     ChainOrder="header-first")
+                     Chunks={1, 3} if q else {1, 2, 3}, MaxPend=1, MaxIntr=1, MaxReads=9,
+                     ChainOrder="header-first")   # the generator; MaxPend=2 is model-checked below, its millions of behaviours are not replayed
             label = "%s_%s" % (kind, iface)
             r = mc("C08", "mc_" + label, "MC_Payload.tla", dict(c, Bufs={0, 1, 2, 4}, Chunks={1, 2, 3}, MaxPend=2),
                    PAYLOAD_INV, properties=["Ends"], view="view")
@@ -417,7 +417,8 @@ def check_C08(chk):
             with open(cases, "a") as f:
                 f.write(open(part).read())
     out = os.path.join(wd, "run")
-    harness("vh", ["payload", "--out", out, "--seed", chk.seed, "--tier", chk.tier, "--cases", cases], timeout=7200)
+    harness("vh", ["payload", "--out", out, "--seed", chk.seed, "--tier", chk.tier, "--cases", cases,
+                   "--limit", 60000 if q else 300000], timeout=7200)
     run = json.load(open(os.path.join(out, "run.json")))
     chk.evaluations += run["evaluations"]
     chk.distinct += run["distinct_inputs"]
@@ -856,6 +857,18 @@ def check_C18(chk):
            ["MultiDocOrder", "SendOnlyIntoCreatedJob", "DocsInOrderOnce", "LastExactlyOnFinal", "NoSendAfterFailure",
             "ExitZeroIffComplete", "OneRequestOthers", "JobClosedIfComplete", "Gen"], properties=["Terminates"], case_file=xcases)
     chk.add_mc(r, "MC_Examples MaxDocs=3 (multi-doc, print-job, print-job-async, get-attrs, get-printers, delete-printer)")
+    # the multi-document protocol for an ARBITRARY number of documents: inductive invariant discharged by Apalache
+    ad = os.path.join(SPEC, "apalache")
+    done = []
+    for label, args in [("init", ["--cinit=ConstInit", "--init=Init", "--inv=IndInv", "--length=0"]),
+                        ("step", ["--cinit=ConstInit", "--init=IndInit", "--inv=IndInv", "--length=1"]),
+                        ("safety", ["--cinit=ConstInit", "--init=IndInit", "--inv=Safety", "--length=0"])]:
+        w = apalache_check("C18", "multidoc_" + label, ad, "MultiDocInd.tla", args)
+        done.append({"obligation": label, "args": " ".join(args), "wall_s": round(w, 1)})
+    chk.extra["apalache_multidoc_inductive_invariant"] = {
+        "module": "spec/apalache/MultiDocInd.tla", "discharged": done,
+        "statement": "for any number N >= 1 of documents: documents sent once and in order into the job Create-Job returned, "
+                     "last-document exactly on document N, nothing sent after a failed step, exit status zero iff complete"}
     xout = os.path.join(wd, "xrun")
     harness("vh", ["examples", "--out", xout, "--seed", chk.seed, "--cases", xcases, "--bindir", bindir,
                    "--limit", 200 if q else 2000], timeout=3600)
